@@ -23,7 +23,12 @@ RULE = ("families: 1-2 axes (axis maps, default at an end or inside), 1-6 source
         "(overlapping), six numeric info attributes (all/none/mixed), 0-2 rules with 1-2 condition sets and open bounds, "
         "substitutions to alternates/missing/identical glyphs, public.skipExportGlyphs; written to a temporary directory as UFOs + "
         ".designspace and read back (half) or kept in memory (half); round_geometry on/off; one Instantiator per family, up to 7 "
-        "instances generated in sequence: every master location, axis ends, beyond the ends, interior dyadic points; sources "
+        "instances generated in sequence: every master location, axis ends, beyond the ends, interior dyadic points, and (60 % of "
+        "the families, 1-2 each, tag near-master) locations that are NOT a master location but lie within 0.0005 normalized of "
+        "one on every axis - master +- span*2^-k, k in 11,12,13,16 (exact in doubles, unrounded design values), moved on one or on "
+        "all axes, towards the inside of the axis range - so that a master shortcut taken with any tolerance/rounded location key "
+        "shows as a plateau instead of the blend (visible with round_geometry off, or with rounding on once a master delta "
+        "exceeds ~1/offset units); sources "
         "snapshotted before/after (objects and files). A tenth of the families use non-dyadic positions/locations and are "
         "compared with tolerance 1e-6 (never alone breaking correspondence). Function level: swap_glyph_names once and twice on "
         "random fonts whose two glyphs are referenced from components, kerning and groups at once; one-axis master scalars of the "
@@ -304,6 +309,8 @@ def _run_family(case, fam, tmp, dl, normalizeLocation, Instantiator):
                     tags.append("empty-glyph-before-default:at-that-master")
         atm = any(_same_loc(fam, s["loc"], iloc) for s in fam["sources"])
         tags.append("at-master" if atm else "between")
+        if not atm and _near_master(fam, bounds, normalizeLocation, iloc):
+            tags.append("near-master")
         full = {a["name"]: a["ddef"] for a in fam["axes"]}
         full.update({n: v for n, v in iloc})
         gnames = [g["name"] for g in fam["fonts"][0]["glyphs"]]
@@ -362,6 +369,17 @@ def _empty_before_default(fam, di):
                 out.append(j)
                 break
     return out
+
+
+def _near_master(fam, bounds, normalizeLocation, iloc):
+    """the instance is within 0.0005 (normalized, every axis) of some master location (without being on it)"""
+    full = {x["name"]: x["ddef"] for x in fam["axes"]}
+    inl = normalizeLocation({**full, **{n: v for n, v in iloc}}, bounds)
+    for s in fam["sources"]:
+        snl = normalizeLocation({**full, **{n: v for n, v in s["loc"]}}, bounds)
+        if all(abs(snl[k] - inl[k]) < 0.0005 for k in inl):
+            return True
+    return False
 
 
 def _same_loc(fam, a, b):
@@ -541,5 +559,7 @@ LEVEL_TEXT = ("Proved for all inputs (Lean): an instance at a master's location 
               "class fallbacks, kerning of masters storing different pairs, multi-axis master scalars.")
 LEVEL_NOTE = ("Trusted: Lean kernel + propext/Classical.choice/Quot.sound; hand-written model of instantiator.py and of the fontMath / "
               "varLib pieces it drives, tied to the code by differential runs (disk and memory designspaces, sequences of instances "
-              "from one Instantiator, designspaces listing the default source first / in between / last, function-level swap and "
+              "from one Instantiator, designspaces listing the default source first / in between / last, instance locations on, far "
+              "from and just off (2^-11..2^-16 normalized) the master locations - the model's master shortcut is exact equality of "
+              "normalized locations over Q, as the code's dict lookup on the exact location key - function-level swap and "
               "scalars streams); multi-axis master scalars are measured, not modelled.")
